@@ -9,6 +9,9 @@ Abstract syntax (JSON-able):
         | {"k":"def","kind":"function"|"class","name":n,"params":[..],"body":[item..]}
         | {"k":"lambda","params":[..],"x":n}   (lambda ps: n)(0,..)   -- a use of n inside a lambda scope
         | {"k":"comp","var":v,"x":n}           [n for v in [0]]       -- a use of n inside a comprehension
+A `def` (function), `lambda` and `lamdef` item may carry "dflt": n - the LAST parameter has the
+default value `n` (`def f(p=n):`, `lambda p=n: ..`): a use of n in the ENCLOSING scope, looked up
+by jedi from the start of the def / of the lambda.
 A program is a module body (list of items).
 
 Every identifier occurrence gets an id in pre-order (printing order).  Two printers:
@@ -67,6 +70,10 @@ def plain(prog):
                             s += ', '
                         _occ(occs, p, 'param', ln, len(s))
                         s += p
+                    if it.get('dflt') and it['params']:
+                        s += '='
+                        _occ(occs, it['dflt'], 'use', ln, len(s))
+                        s += it['dflt']
                     lines.append(s + '):')
                 else:
                     head = '%sclass ' % pad
@@ -80,6 +87,10 @@ def plain(prog):
                         s += ', '
                     _occ(occs, p, 'param', ln, len(s))
                     s += p
+                if it.get('dflt') and it['params']:
+                    s += '='
+                    _occ(occs, it['dflt'], 'use', ln, len(s))
+                    s += it['dflt']
                 s += ': '
                 _occ(occs, it['x'], 'use', ln, len(s))
                 s += it['x'] + ')(' + ', '.join('0' for _ in it['params']) + ')'
@@ -93,6 +104,10 @@ def plain(prog):
                         s += ', '
                     _occ(occs, p, 'param', ln, len(s))
                     s += p
+                if it.get('dflt') and it['params']:
+                    s += '='
+                    _occ(occs, it['dflt'], 'use', ln, len(s))
+                    s += it['dflt']
                 s += ': '
                 _occ(occs, it['x'], 'use', ln, len(s))
                 s += it['x']
@@ -153,7 +168,13 @@ def executable(prog):
                 i = nid()
                 if it['kind'] == 'function':
                     pids = [nid() for _ in it['params']]
-                    lines.append('%sdef %s(%s):' % (pad, it['name'], ', '.join(it['params'])))
+                    ps = ', '.join(it['params'])
+                    if it.get('dflt') and it['params']:
+                        di = nid()
+                        lines.append('%stry: _d%d = _u(%d, %s)' % (pad, di, di, it['dflt']))
+                        lines.append('%sexcept NameError: _abort(%d)' % (pad, di))
+                        ps += '=_d%d' % di
+                    lines.append('%sdef %s(%s):' % (pad, it['name'], ps))
                     # parameters are rebound to tokens naming the parameter occurrence
                     for p, pi in zip(it['params'], pids):
                         lines.append('%s    %s = (%r, %d) if isinstance(%s, tuple) and %s[0] == "<arg>" else %s'
@@ -166,14 +187,26 @@ def executable(prog):
                     lines.append('%s%s.__occ__ = %d' % (pad, it['name'], i))
             elif k == 'lambda':
                 pids = [nid() for _ in it['params']]
+                ps = ', '.join(it['params'])
+                if it.get('dflt') and it['params']:
+                    di = nid()
+                    lines.append('%stry: _d%d = _u(%d, %s)' % (pad, di, di, it['dflt']))
+                    lines.append('%sexcept NameError: _abort(%d)' % (pad, di))
+                    ps += '=_d%d' % di
                 i = nid()
                 args = ', '.join('(%r, %d)' % (p, pi) for p, pi in zip(it['params'], pids))
                 lines.append('%stry: (lambda %s: _u(%d, %s))(%s)'
-                             % (pad, ', '.join(it['params']), i, it['x'], args))
+                             % (pad, ps, i, it['x'], args))
                 lines.append('%sexcept NameError: _u(%d, _UNBOUND)' % (pad, i))
             elif k == 'lamdef':
                 bi = nid()
                 pids = [nid() for _ in it['params']]
+                ps0 = ', '.join(it['params'])
+                if it.get('dflt') and it['params']:
+                    di = nid()
+                    lines.append('%stry: _d%d = _u(%d, %s)' % (pad, di, di, it['dflt']))
+                    lines.append('%sexcept NameError: _abort(%d)' % (pad, di))
+                    ps0 += '=_d%d' % di
                 i = nid()
                 # parameters are rebound to their own tokens through default-free wrappers
                 ps = ', '.join(it['params'])
@@ -181,7 +214,7 @@ def executable(prog):
                 # the inner lambda only re-labels the arguments with the parameter occurrences; a
                 # nested function scope is transparent for the lookup of every other name
                 lines.append('%s%s = lambda %s: (lambda %s: _u(%d, %s))(%s)'
-                             % (pad, it['name'], ps, ps, i, it['x'], toks))
+                             % (pad, it['name'], ps0, ps, i, it['x'], toks))
                 lines.append('%s%s.__occ__ = %d' % (pad, it['name'], bi))
             elif k == 'comp':
                 i = nid()
@@ -279,6 +312,8 @@ def gen_items(rng, depth, kind, budget, allow):
                 params = rng.sample(NAMES, rng.choice([0, 0, 1, 2]))
                 body = gen_items(rng, depth + 1, 'function', budget, allow)
                 items.append({'k': 'def', 'kind': 'function', 'name': name, 'params': params, 'body': body})
+                if params and 'dflt' in allow and rng.random() < 0.4:
+                    items[-1]['dflt'] = rng.choice(NAMES)
                 r2 = rng.random()
                 if r2 < 0.5:
                     items.append({'k': 'call', 'x': name, 'n': len(params)})
@@ -290,12 +325,20 @@ def gen_items(rng, depth, kind, budget, allow):
                 items.append({'k': 'def', 'kind': 'class', 'name': name, 'params': [], 'body': body})
         elif r < 0.95 and 'lambda' in allow:
             if rng.random() < 0.5:
-                items.append({'k': 'lambda', 'params': rng.sample(NAMES, rng.choice([0, 1])),
+                items.append({'k': 'lambda', 'params': rng.sample(NAMES, rng.choice([0, 1, 1, 2]) if 'dflt' in allow
+                                                                  else rng.choice([0, 1])),
                               'x': rng.choice(NAMES)})
+                if items[-1]['params'] and 'dflt' in allow and rng.random() < 0.5:
+                    items[-1]['dflt'] = rng.choice(NAMES)
             else:
                 name = rng.choice(FNAMES)
                 params = rng.sample(NAMES, rng.choice([0, 0, 1]))
                 items.append({'k': 'lamdef', 'name': name, 'params': params, 'x': rng.choice(NAMES)})
+                if 'dflt' in allow:
+                    if not params and rng.random() < 0.5:
+                        items[-1]['params'] = params = rng.sample(NAMES, rng.choice([1, 2]))
+                    if params and rng.random() < 0.6:
+                        items[-1]['dflt'] = rng.choice(NAMES)
                 pending.append({'k': 'call', 'x': name, 'n': len(params)})
         elif 'comp' in allow:
             items.append({'k': 'comp', 'var': rng.choice(NAMES), 'x': rng.choice(NAMES)})
@@ -399,19 +442,30 @@ def flat(prog):
                 t = len(scopes) - 1
                 for p in it['params']:
                     occs.append([nm(p), ROLES['param'], t, len(occs)])
+                if it.get('dflt') and it['params']:
+                    # a use in the ENCLOSING scope, looked up from the start of the def
+                    occs.append([nm(it['dflt']), ROLES['use'], s, d])
                 walk(it['body'], t)
             elif k == 'lambda':
                 scopes.append([KINDS['lambda'], s, -1])
                 t = len(scopes) - 1
+                first = len(occs)
                 for p in it['params']:
                     occs.append([nm(p), ROLES['param'], t, len(occs)])
+                if it.get('dflt') and it['params']:
+                    # a use in the ENCLOSING scope, looked up from the start of the lambda
+                    occs.append([nm(it['dflt']), ROLES['use'], s, first])
                 occs.append([nm(it['x']), ROLES['use'], t, len(occs)])
             elif k == 'lamdef':
                 occs.append([nm(it['name']), ROLES['bind'], s, len(occs)])
                 scopes.append([KINDS['lambda'], s, -1])
                 t = len(scopes) - 1
+                first = len(occs)
                 for p in it['params']:
                     occs.append([nm(p), ROLES['param'], t, len(occs)])
+                if it.get('dflt') and it['params']:
+                    # a use in the ENCLOSING scope, looked up from the start of the lambda
+                    occs.append([nm(it['dflt']), ROLES['use'], s, first])
                 occs.append([nm(it['x']), ROLES['use'], t, len(occs)])
             elif k == 'comp':
                 scopes.append([KINDS['comp'], s, -1])
